@@ -141,6 +141,33 @@ def check(run):
         if v != [a * b for a, b in xs] or sorted(F.CALLS) != xs:
             run.fail('currymap-value', 'currymap gives %r (calls %r) for %r step %d' % (v, F.CALLS, xs, step), {'kind': 'currymap', 'n': n, 'ms': step})
         corr('currymap', {'op': 'currymap', 'n': n, 'ms': step}, {'value': v}, ['value'])
+        # argument packs of other shapes: currymap(f, xs) is [f(*x) for x in xs] whatever the packs are
+        import numpy as np
+        for shape in ('list2', 'list1', 'nprow3', 'tuple0', 'mixed'):
+            if shape == 'list2':
+                packs = [[i, i + 2] for i in range(n)]
+            elif shape == 'list1':
+                packs = [[i] for i in range(n)]
+            elif shape == 'nprow3':
+                packs = list(np.arange(3 * n).reshape((n, 3)))
+            elif shape == 'tuple0':
+                packs = [() for i in range(n)]
+            else:
+                packs = [([i, 7] if i % 2 else (i, 8, 9)) for i in range(n)]
+            want = [[int(a) for a in pk] for pk in packs]
+            run.case(('cm', shape, n, step), nontrivial=n > step)
+            jugenv.reset()
+            del F.CALLS[:]
+            rp = {'kind': 'currymap-packs', 'shape': shape, 'n': n, 'ms': step}
+            try:
+                cm = currymap(F.star, packs, map_step=step)
+                jugenv.run_all()
+                v = value(cm)
+            except Exception as e:
+                run.fail('currymap-raises', 'currymap over %s argument packs raised %r n=%d step=%d' % (shape, e, n, step), rp)
+                continue
+            if v != want or (shape != 'tuple0' and sorted(F.CALLS) != sorted(tuple(w) for w in want)):  # equal blocks of empty packs are one task
+                run.fail('currymap-value', 'currymap over %s packs gives %r (calls %r), [f(*x) for x in xs] gives %r; step %d' % (shape, v, F.CALLS, want, step), rp)
         if step >= 2:
             jugenv.reset()
             ys = [[i] for i in range(n)]
